@@ -117,10 +117,15 @@ theorem nodeWf_str (cfg : CompCfg) (m : Meta) (s : String) : NodeWf cfg (.str m 
 
 theorem nodeWf_const (cfg : CompCfg) (m : Meta) (v : Val) : NodeWf cfg (.const m v) := by
   intro p code p' hp h
-  simp only [compileNode] at h
-  obtain ⟨⟨k, p1⟩, h1, h⟩ := cr_bind_ok h
-  cr_fin h
-  exact CompRes.push hp h1 _
+  unfold compileNode at h
+  split at h
+  · -- `ConstantNode{nil}`: a single OpNil, pool unchanged
+    simp only [Except.ok.injEq, Prod.mk.injEq] at h
+    obtain ⟨rfl, rfl⟩ := h
+    exact CompRes.plain hp _ _ rfl (by decide) (by decide)
+  · obtain ⟨⟨k, p1⟩, h1, h⟩ := cr_bind_ok h
+    cr_fin h
+    exact CompRes.push hp h1 _
 
 theorem nodeWf_closure (cfg : CompCfg) (m : Meta) (x : Node) (hx : NodeWf cfg x) : NodeWf cfg (.closure m x) := by
   intro p code p' hp h
